@@ -122,6 +122,8 @@ impl Iterator for TokenIter<'_> {
     type Item = String;
 
     fn next(&mut self) -> Option<Self::Item> {
+        #[cfg(regexml_verif)]
+        crate::verif::tick();
         if let Some(prev_end) = self.prev_end {
             if self.matcher.matches(prev_end) {
                 let start = self.matcher.get_paren_start(0).unwrap();
